@@ -20,7 +20,9 @@ import (
 
 type emitter struct {
 	ops, exp *bufio.Writer
+	wit      *bufio.Writer // optional third stream: one JSON line per operation ("" = none), see emitW
 	n        int
+	witN     int
 	stats    map[string]int
 	limit    int
 }
@@ -32,6 +34,25 @@ func (e *emitter) emit(op string, expected string) {
 	e.exp.WriteByte('\n')
 	e.n++
 }
+
+// emitW is emit plus an END-TO-END WITNESS for the operation: a case of one of the hapi searches
+// ({"search": name, "case": {...}}) on which the PROPERTY ITSELF fails if the real routine is wrong on
+// this operation. When the correspondence disagrees on the operation the check replays its witness; if
+// the replay violates the property the violation is reported with that concrete input.
+func (e *emitter) emitW(op string, expected string, search string, witnessCase interface{}) {
+	if e.wit != nil {
+		for e.witN < e.n {
+			e.wit.WriteByte('\n')
+			e.witN++
+		}
+		js, _ := json.Marshal(map[string]interface{}{"search": search, "case": witnessCase})
+		e.wit.Write(js)
+		e.wit.WriteByte('\n')
+		e.witN++
+	}
+	e.emit(op, expected)
+}
+
 func (e *emitter) stat(key string) { e.stats[key]++ }
 func (e *emitter) full() bool      { return e.n >= e.limit }
 
@@ -56,7 +77,7 @@ func main() {
 			names = append(names, k)
 		}
 		sort.Strings(names)
-		fmt.Fprintln(os.Stderr, "usage: hinternal <kernel> <seed> <count> <ops> <expected> [stats]; kernels:", names)
+		fmt.Fprintln(os.Stderr, "usage: hinternal <kernel> <seed> <count> <ops> <expected> [stats [witnesses]]; kernels:", names)
 		os.Exit(2)
 	}
 	k, ok := kernels[os.Args[1]]
@@ -76,9 +97,19 @@ func main() {
 	}
 	tier := os.Getenv("VERIF_TIER")
 	e := &emitter{ops: bufio.NewWriterSize(fo, 1<<20), exp: bufio.NewWriterSize(fe, 1<<20), stats: map[string]int{}, limit: count}
+	var fw *os.File
+	if len(os.Args) > 7 {
+		if fw, err = os.Create(os.Args[7]); err == nil {
+			e.wit = bufio.NewWriterSize(fw, 1<<20)
+		}
+	}
 	k(gen.New(seed), e, tier)
 	e.ops.Flush()
 	e.exp.Flush()
+	if e.wit != nil {
+		e.wit.Flush()
+		fw.Close()
+	}
 	fo.Close()
 	fe.Close()
 	e.stats["_cases"] = e.n
